@@ -173,7 +173,8 @@ class Probe:
 
 def harness(eng, fam, P):
     bodies, targets = programs(eng, fam, P)
-    progs = [Program(eng, b) for b in bodies]
+    shared = {}
+    progs = [Program(eng, b, shared) for b in bodies]
     eng.path_info['program'] = ' || '.join(show(b) for b in bodies)
     w = World(eng, P.get('universe', U7), sandbox=getattr(eng, 'sandbox', None))
     paths = list(dict.fromkeys(list(P.get('universe', U7)) + targets))
